@@ -43,7 +43,8 @@ NoteSubmit(t, th, k) ==
 (* ---- runInLoop(), any thread, under lock_: "loop.ril.push"(id, wrote) ---- *)
 DPushIn(t, th, wrote) ==
   /\ alive /\ NoteSubmit(t, th, "in") /\ qIn' = Append(qIn, t)
-  /\ wrote = (running /\ ~hasReq)               \* one eventfd write per wake-up request, only while the loop has its read event
+  /\ ((running /\ ~hasReq) => wrote) /\ (wrote => running)   \* a write is required when no wake-up request is outstanding
+                                                             \* (the code writes exactly then; extra writes would be harmless)
   /\ efd' = (IF wrote THEN efd + 1 ELSE efd) /\ hasReq' = (hasReq \/ wrote)
   /\ UNCHANGED <<qNext, batch, drainN, drainI, running, alive, nexec, lastExec, cancelled, fifoOk, threadOk>>
 (* ---- runNext(), loop thread (or the thread that owns the stopped loop): "loop.next.push" ---- *)
